@@ -581,6 +581,77 @@ def rule_e10(repo):
                     '%s:%d' % (m.rel, (bad[0][0] if bad else pows[0]).lineno))
     return res
 
+def rule_e11(repo):
+    """A rewriting rule may treat a sum and a difference in one branch (`X.is_plus() or X.is_minus()`, `X.op in ('+', '-')`) - but then what it
+    builds has to depend on which of the two it met: it re-uses the operator (`Op(X.op, ..)`) or asks again.  A branch that admits both
+    and builds one fixed result gives the difference the meaning of the sum: c1 ^ (c2 - a) became c1 ^ c2 * c1 ^ a."""
+    res = RuleResult('C19.E11', 'a branch that admits a sum and a difference alike builds its result from the operator it met', floor=1)
+    n_found = 0
+    for m in repo.source_modules():
+        if not m.rel.startswith('integral/') or '/tests/' in m.rel or m.rel.endswith('latex.py'):
+            continue
+        for f in m.all_funcs:
+            own = {id(x) for g in f.nested.values() for x in ast.walk(g.node)} if getattr(f, 'nested', None) else set()
+            for n in ast.walk(f.node):
+                if id(n) in own:
+                    continue
+                subj, cond = None, None
+                if isinstance(n, ast.BoolOp) and isinstance(n.op, ast.Or):
+                    recv = {}
+                    for v in n.values:
+                        if isinstance(v, ast.Call) and call_attr(v) in ('is_plus', 'is_minus') and not v.args:
+                            recv.setdefault(src(v.func.value, 80), set()).add(call_attr(v))
+                    both = [r for r, k in recv.items() if k == {'is_plus', 'is_minus'}]
+                    if both:
+                        subj, cond = both[0], n
+                cp = compare_parts(n) if isinstance(n, ast.Compare) else None
+                if cp and cp[0] is ast.In and isinstance(cp[1], ast.Attribute) and cp[1].attr == 'op' and isinstance(cp[2], (ast.Tuple, ast.List, ast.Set)) and \
+                        {getattr(e_, 'value', None) for e_ in cp[2].elts} == {'+', '-'}:
+                    subj, cond = src(cp[1].value, 80), n
+                if subj is None:
+                    continue
+                n_found += 1
+                inside = {id(x) for x in ast.walk(cond)}
+                again = False
+                # where the admitted case is handled: the body of the `if` that tests it, or - for a guard `if not (..): return` - what follows
+                region = [f.node]
+                for st in ast.walk(f.node):
+                    if isinstance(st, ast.If) and any(x is cond for x in ast.walk(st.test)):
+                        negs, x = 0, st.test
+                        # polarity of cond inside the test
+                        def pol(e, p=True):
+                            if e is cond:
+                                return p
+                            if isinstance(e, ast.UnaryOp) and isinstance(e.op, ast.Not):
+                                return pol(e.operand, not p)
+                            for ch in ast.iter_child_nodes(e):
+                                r = pol(ch, p)
+                                if r is not None:
+                                    return r
+                            return None
+                        if pol(st.test) is False:
+                            # the statements after this `if` in its block
+                            for blk in ast.walk(f.node):
+                                for fld in ('body', 'orelse', 'finalbody'):
+                                    lst = getattr(blk, fld, None)
+                                    if isinstance(lst, list) and st in lst:
+                                        region = lst[lst.index(st) + 1:]
+                        else:
+                            region = st.body
+                for x in [y for r_ in region for y in ast.walk(r_)]:
+                    if id(x) in inside:
+                        continue
+                    if isinstance(x, ast.Attribute) and x.attr == 'op' and src(x.value, 80) == subj:
+                        again = True
+                    if isinstance(x, ast.Call) and call_attr(x) in ('is_plus', 'is_minus') and src(x.func.value, 80) == subj:
+                        again = True
+                res.add('%s :: %s :: sum-or-difference(%s)@%d' % (m.rel, f.qualname, subj[:40], n_found), again,
+                        'the result is built from the operator that was met' if again else
+                        'line %d admits `%s` as a sum or as a difference and never asks again which it is: the difference is rewritten like the sum '
+                        '(2 ^ (3 - x) becomes 2 ^ 3 * 2 ^ x)' % (cond.lineno, subj), '%s:%d' % (m.rel, cond.lineno))
+    need(n_found, 'integral/: no branch that admits a sum and a difference alike found (the positive example Summation + / - is gone)')
+    return res
+
 
 def rules(repo):
-    return [rule_e1(repo), rule_e2(repo), rule_e3(repo), rule_e4(repo), rule_e5(repo), rule_e6(repo), rule_e7(repo), rule_e8(repo), rule_e9(repo), rule_e10(repo)]
+    return [rule_e1(repo), rule_e2(repo), rule_e3(repo), rule_e4(repo), rule_e5(repo), rule_e6(repo), rule_e7(repo), rule_e8(repo), rule_e9(repo), rule_e10(repo), rule_e11(repo)]
